@@ -59,7 +59,7 @@ Definition dd_of (n : netcase) (i : nat) : default_ds :=
   | None => mkDD 0 0 (mkCQ 0 0 0) 0 0 0 false 0
   end.
 Definition snap_of (n : netcase) (i : nat) : snapshot :=
-  match nth_error (nc_nodes n) i with Some c => final_snap c | None => mkSnap [] (mkDS (dd_of n i) 0 (mkPD pi_default 0 (mkCQ 0 0 0) 0 0) [] false (mkTP None 0 false false false 0)) [] end.
+  match nth_error (nc_nodes n) i with Some c => final_snap c | None => mkSnap [] (mkDS (dd_of n i) 0 (mkPD pi_default 0 (mkCQ 0 0 0) 0 0) [] false (mkTP None 0 false false false 0)) [] [] end.
 
 Definition better_node (n : netcase) (a b : nat) : bool :=
   a_better_or_topo (fig34 (cmp_from_own (dd_of n a)) (cmp_from_own (dd_of n b))).
